@@ -159,9 +159,14 @@ def _h_malformed(ctx, cls, corruption, fitted_before):
         call = "init"
         detail = "feature both quantitative and " + ("qualitative" if variant == 0 else "ordinal")
     elif corruption == "str_in_quant":
+        variant = ctx.choose("variant", 3)
+        if variant == 1:  # integer-valued discrete feature
+            Xc["f"] = (Xc["f"] * 2).astype(int)
+        elif variant == 2:  # numeric feature with missing values
+            Xc.loc[Xc.index[(pos + 1) % N], "f"] = np.nan
         Xc["f"] = Xc["f"].astype(object)
-        Xc.iloc[pos, 0] = "oops"
-        detail = f"X.f[{pos}]='oops'"
+        Xc.iloc[pos, 0] = ["oops", "", "12"][ctx.choose("strval", 3)]
+        detail = f"X.f[{pos}]={Xc.iloc[pos, 0]!r} in a {['float', 'integer-valued', 'float with NaN'][variant]} column"
     elif corruption == "ordinal_unknown":
         Xc.iloc[pos, 2] = "XL"
         detail = f"X.o[{pos}]='XL' (absent from the ranking)"
